@@ -119,7 +119,12 @@ def merge_checks(ctx):
         b.Translate(1.0, 0.0, 0.0)  # shares the edge x = 1 with a
         c = _grid_mesh(2, 2, ElemType.TRI3)
         c.Translate(5.0, 0.0, 0.0)  # disjoint
-    for label, lst, nn in (("coincident", [a, b], 9 + 9 - 3), ("disjoint", [a, c], 18)):
+    with quiet():
+        d = _grid_mesh(2, 2, ElemType.TRI3)
+        d.Translate(0.0, 1.0, 0.0)
+        e = _grid_mesh(2, 2, ElemType.TRI3)
+        e.Translate(1.0, 1.0, 0.0)  # a, b, d, e meet at the cross point (1, 1): four coincident input points there
+    for label, lst, nn in (("coincident", [a, b], 9 + 9 - 3), ("disjoint", [a, c], 18), ("cross-point", [a, b, d, e], 25)):
         try:
             with quiet():
                 merged, mapping = Mesh.Merge(lst, return_mapping=True)
@@ -133,7 +138,47 @@ def merge_checks(ctx):
                 ctx.violation(f"merge-mapping/{label}", "mapping returned by Mesh.Merge does not send the nodes of an input mesh onto their coordinates in the merged mesh", {"label": label})
         if abs(merged.area - sum(m.area for m in lst)) > 1e-12:
             ctx.violation(f"merge-area/{label}", "area of the merged mesh is not the sum of the areas", {"label": label})
+        # coincident input nodes have one image
+        allc = np.vstack([m.coord for m in lst])
+        allm = np.concatenate([np.asarray(mp) for mp in mapping])
+        _, inv = np.unique(np.round(allc, 9), axis=0, return_inverse=True)
+        for k_ in range(inv.max() + 1):
+            if np.unique(allm[np.ravel(inv) == k_]).size != 1:
+                ctx.violation(f"merge-torn/{label}", f"input nodes at the same position {allc[np.ravel(inv) == k_][0]} are mapped to different nodes of the merged mesh {np.unique(allm[np.ravel(inv) == k_])}", {"label": label})
+                break
         ctx.count(1, distinct_key=("merge", label))
+
+
+def merge_partition_back(ctx, parts, whole, ident):
+    """the parts of a partition merged back (ghost layers overlap, at triple points three or more copies of a node coincide): as many
+    nodes and elements as the one-piece mesh and the same stiffness up to the renumbering given by the coordinates"""
+    from EasyFEA.FEM import Mesh
+    from EasyFEA import Models, Simulations
+
+    try:
+        with quiet():
+            merged = Mesh.Merge(parts)
+    except Exception as ex:
+        ctx.violation(f"merge-parts-raises/{ident.split('/')[0]}", f"Mesh.Merge of the parts of {ident} raises {type(ex).__name__}: {ex}", {"id": ident})
+        return
+    used = np.unique(np.concatenate([g.connect.ravel() for g in merged.Get_list_groupElem(merged.dim)]))
+    if used.size != whole.Nn or merged.Ne != whole.Ne:
+        ctx.violation(f"merge-parts/{ident.split('/')[0]}", f"the parts of {ident} merged back give {used.size} nodes / {merged.Ne} elements, the one-piece mesh has {whole.Nn} / {whole.Ne}", {"id": ident})
+        return
+    with quiet():
+        mat = Models.Elastic.Isotropic(2, E=10.0, v=0.3, planeStress=True, thickness=1.0)
+        Km = Simulations.Elastic(merged, mat, verbosity=False).Get_K_C_M_F()[0].toarray()
+        Kw = Simulations.Elastic(whole, mat, verbosity=False).Get_K_C_M_F()[0].toarray()
+    # renumbering by coordinates
+    key = lambda c: [tuple(r) for r in np.round(c[:, :2], 9)]
+    pos = {k_: i for i, k_ in enumerate(key(whole.coord))}
+    perm = np.array([pos[k_] for k_ in key(merged.coord[used])])
+    dm = (used[:, None] * 2 + np.arange(2)).ravel()
+    dw = (perm[:, None] * 2 + np.arange(2)).ravel()
+    err = np.abs(Km[np.ix_(dm, dm)] - Kw[np.ix_(dw, dw)]).max() / np.abs(Kw).max()
+    if err > 1e-10:
+        ctx.violation(f"merge-parts-K/{ident.split('/')[0]}", f"stiffness on the parts of {ident} merged back differs from the one-piece mesh (rel {err:.3g})", {"id": ident})
+    ctx.count(1, distinct_key=("merge-parts", ident))
 
 
 def run(ctx):
@@ -213,6 +258,8 @@ def run(ctx):
             if np.abs(p.coord[used] - whole.coord[used]).max() > 1e-12:
                 ctx.violation(f"coordinates/{ident.split('/')[0]}", f"a part of {ident} does not keep the global coordinates of its nodes", {"id": ident})
         rows_and_energy(ctx, parts, whole, ident, "thermal" if dim == 3 or "TRI10" in ident or "TRI15" in ident else "elastic")
+        if dim == 2 and not mixed and len(parts) >= 3 and et in ("TRI3", "QUAD4", "TRI6"):
+            merge_partition_back(ctx, parts, whole, ident)
         again = make_parts(len(parts), et, dim, h, mixed=mixed, hole=mixed)
         same = all(np.array_equal(a.dict_groupElem[k]._Get_partitioned_data()[i], b.dict_groupElem[k]._Get_partitioned_data()[i]) for a, b in zip(parts, again) for k in a.dict_groupElem for i in (1, 2, 3, 4))
         if not same:
